@@ -161,9 +161,20 @@ func genSeqScenario(r *verifrt.Rand, i int) *seqScenario {
 	for k := range builds {
 		builds[k] = genBuild(r)
 	}
-	if nb > 1 && r.Intn(3) == 0 { // same program, different GOOS only
+	twin := false
+	if nb > 1 && r.Intn(3) == 0 { // same program, builds differing in one identity field only
 		builds[1] = builds[0]
-		builds[1].GOOS = verifrt.Pick(r, vocabOS)
+		switch r.Intn(4) {
+		case 0:
+			builds[1].GOOS = verifrt.Pick(r, vocabOS)
+		case 1:
+			builds[1].GOARCH = verifrt.Pick(r, vocabArch)
+		case 2:
+			builds[1].GoVersion = verifrt.Pick(r, vocabGo)
+		default:
+			builds[1].Version = verifrt.Pick(r, versionsOf(builds[1].Program))
+		}
+		twin = builds[1] != builds[0]
 	}
 	nf := 1 + r.Intn(6)
 	for k := 0; k < nf; k++ {
@@ -201,6 +212,15 @@ func genSeqScenario(r *verifrt.Rand, i int) *seqScenario {
 		}
 		f.setName(k)
 		s.Files = append(s.Files, f)
+	}
+	if twin && nf >= 2 && i%8 != 0 && i%8 != 4 && r.Intn(2) == 0 {
+		// the twin builds both have a readable file in the same week
+		a, b := s.Files[0], s.Files[1]
+		a.Kind, b.Kind = "ok", "ok"
+		a.Build, b.Build = builds[0], builds[1]
+		b.End, b.Begin = a.End, a.Begin
+		a.setName(0)
+		b.setName(1)
 	}
 	if i%8 == 0 && nf >= 2 {
 		// two readable files of one week with different begin dates and the
